@@ -452,6 +452,7 @@ def run_one(tape, only=None):
     res["nontrivial"] = sim.stats["decisions_gt1"] > 0 or bool(st.fired)
     res["wdigest"] = digest_of(w)
     res["edigest"] = sim.digest()
+    res["trace"] = sim.log[:800]
     res["sim_seconds"] = sim.now
     res["kinds"] = [f"op={w['op']}", f"pool={w['worker_type']}",
                     f"policy={policy['kind']}", f"sel={w['sel']}",
